@@ -14,13 +14,38 @@ var soupTokens = []string{"type", "let", "prc", "exec", "assuming", "send", "rec
 
 var hostileTails = []string{"/*", "/* unterminated", "/**", "/* a * b", "//", "// tail", "/", "\\", "-", "<", "=", "*", "(", "{", "[", "\x00", "\xc3", "x <- new", "prc[", "type A =", "1", "/\\", "\\/", "/* */ /*"}
 
+// Scale describes an input of the shape Prefix + Open^n + Mid + Close^n + Suffix, so that the
+// same shape can be rebuilt at another size (used to tell super-linear parsing from a slow machine).
+type Scale struct {
+	Prefix, Open, Mid, Close, Suffix string
+	Count                            int
+}
+
+func (s *Scale) Build(n int) string {
+	return s.Prefix + strings.Repeat(s.Open, n) + s.Mid + strings.Repeat(s.Close, n) + s.Suffix
+}
+
 // Text generates arbitrary byte strings (G-text in DESIGN.md). base supplies a grammatical
 // program text to damage (may be "").
 func (d D) Text(base func() string) (string, string) {
+	t, k, _ := d.TextScaled(base)
+	return t, k
+}
+
+// TextScaled is Text plus, for the size-driven kinds, the description of how the input scales.
+func (d D) TextScaled(base func() string) (string, string, *Scale) {
+	t, k, sc := d.textScaled(base)
+	if sc != nil {
+		t = sc.Build(sc.Count)
+	}
+	return t, k, sc
+}
+
+func (d D) textScaled(base func() string) (string, string, *Scale) {
 	switch d.Pick(9, "textkind") {
 	case 0:
 		b := rapid.SliceOfN(rapid.Byte(), 0, 400).Draw(d.T, "bytes")
-		return string(b), "random-bytes"
+		return string(b), "random-bytes", nil
 	case 1:
 		n := d.Int(1, 120, "ntok")
 		var sb strings.Builder
@@ -30,46 +55,46 @@ func (d D) Text(base func() string) (string, string) {
 				sb.WriteString(" ")
 			}
 		}
-		return sb.String(), "token-soup"
+		return sb.String(), "token-soup", nil
 	case 2: // truncated program
 		s := base()
 		if len(s) == 0 {
-			return s, "empty"
+			return s, "empty", nil
 		}
-		return s[:d.Int(0, len(s), "cut")], "truncated"
+		return s[:d.Int(0, len(s), "cut")], "truncated", nil
 	case 3: // program with a hostile tail
-		return base() + d.Of(hostileTails, "tail"), "hostile-tail"
+		return base() + d.Of(hostileTails, "tail"), "hostile-tail", nil
 	case 4: // span operations
 		s := base()
 		if len(s) < 2 {
-			return s, "short"
+			return s, "short", nil
 		}
 		i := d.Int(0, len(s)-1, "i")
 		j := d.Int(i, min(len(s), i+40), "j")
 		switch d.Pick(3, "spanop") {
 		case 0:
-			return s[:i] + s[j:], "span-deleted"
+			return s[:i] + s[j:], "span-deleted", nil
 		case 1:
-			return s[:j] + s[i:j] + s[j:], "span-duplicated"
+			return s[:j] + s[i:j] + s[j:], "span-duplicated", nil
 		default:
-			return s[:i] + d.Of(soupTokens, "ins") + s[i:], "token-inserted"
+			return s[:i] + d.Of(soupTokens, "ins") + s[i:], "token-inserted", nil
 		}
 	case 5: // deep nesting
 		n := d.Int(1, 3000, "depth")
 		open, close := "(", ")"
 		switch d.Pick(4, "nestkind") {
 		case 1:
-			return "type A = " + strings.Repeat("(", n) + "1" + strings.Repeat(")", n), "deep-type-parens"
+			return "", "deep-type-parens", &Scale{Prefix: "type A = ", Open: "(", Mid: "1", Close: ")", Count: n}
 		case 2:
-			return "type A = " + strings.Repeat("+{l : ", n) + "1" + strings.Repeat("}", n), "deep-choice"
+			return "", "deep-choice", &Scale{Prefix: "type A = ", Open: "+{l : ", Mid: "1", Close: "}", Count: n}
 		case 3:
-			return "type A = " + strings.Repeat("1 * ", n) + "1", "long-product"
+			return "", "long-product", &Scale{Prefix: "type A = ", Open: "1 * ", Mid: "1", Count: n}
 		}
-		s := "prc[a] : 1 = " + strings.Repeat(open, n) + "close self" + strings.Repeat(close, n)
 		if d.Chance(30, "unbalanced") {
-			s = s[:len(s)-d.Int(1, n, "drop")]
+			s := "prc[a] : 1 = " + strings.Repeat(open, n) + "close self" + strings.Repeat(close, n)
+			return s[:len(s)-d.Int(1, n, "drop")], "deep-term-parens-unbalanced", nil
 		}
-		return s, "deep-term-parens"
+		return "", "deep-term-parens", &Scale{Prefix: "prc[a] : 1 = ", Open: open, Mid: "close self", Close: close, Count: n}
 	case 6: // large input
 		s := base()
 		if s == "" {
@@ -79,29 +104,21 @@ func (d D) Text(base func() string) (string, string) {
 		if n > 4000 {
 			n = 4000
 		}
-		return strings.Repeat(s, n), "large"
+		return "", "large", &Scale{Open: s, Count: n}
 	case 7: // long identifier / many branches
 		n := d.Int(1, 20000, "len")
-		if d.Bool("ident") {
-			return "type " + strings.Repeat("a", n) + " = 1", "long-identifier"
+		switch d.Pick(3, "longkind") {
+		case 0:
+			return "", "long-identifier", &Scale{Prefix: "type ", Open: "a", Suffix: " = 1", Count: n}
+		case 1:
+			return "", "many-arguments", &Scale{Prefix: "prc[a] : 1 = f(x", Open: ", x", Suffix: ")", Count: n % 6000}
 		}
-		var sb strings.Builder
-		sb.WriteString("type A = +{")
-		for i := 0; i < n%3000; i++ {
-			if i > 0 {
-				sb.WriteString(", ")
-			}
-			sb.WriteString("l")
-			sb.WriteString(strings.Repeat("x", i%7))
-			sb.WriteString(" : 1")
-		}
-		sb.WriteString("}")
-		return sb.String(), "many-branches"
+		return "", "many-branches", &Scale{Prefix: "type A = +{l : 1", Open: ", l : 1", Suffix: "}", Count: n % 6000}
 	default: // comments in odd places
 		s := base()
 		i := d.Int(0, len(s), "ci")
 		c := d.Of([]string{"/*", "/* x", "//", "/* */", "/* * / */", "/*/", "/**/", "/***/", "/* // */", "// /*\n"}, "c")
-		return s[:i] + c + s[i:], "comment-inserted"
+		return s[:i] + c + s[i:], "comment-inserted", nil
 	}
 }
 
